@@ -236,6 +236,8 @@ def check(ctx, replay=None):
     import c04_backends
     bstats = c04_backends.run(ctx, accepted_bridges[: (3 if ctx.quick() else 60)], violate)
     stats.update(bstats)
+    import c04_jsgc
+    stats.update(c04_jsgc.run(ctx, accepted_bridges[: (4 if ctx.quick() else 40)], violate))
     fails = run_shards(PROP, HEADER, goals) if goals else []
     if fails and viol == 0:
         ctx.violation("corr:borrow-model", {"broken": "correspondence goal " + goals[fails[0]][:900] + " : Lifetimes/Model.v no longer reproduces the "
@@ -248,7 +250,9 @@ def check(ctx, replay=None):
         "independent reading of Rust's outlives rules (direct check, failing signature = replay) and (b) literally, including the all_longer set "
         "and edge order, with Lifetimes/Model.v evaluated in Coq; acceptance/rejection of every method and definition is compared with the model's "
         "validate; the reading of Rust's rules is itself compared with rustc on (r, x) pairs (does `v: &'x u8` coerce to `&'r u8` under this "
-        "signature?); js/dart/kotlin/nanobind output is parsed for the edges attached to the returned object" % (nb, stats["methods"]),
+        "signature?); js/dart/kotlin/nanobind output is parsed for the edges attached to the returned object; the generated JS is executed in "
+        "node --expose-gc against a mock wasm module: after dropping everything but the returned value and collecting, no input it may borrow "
+        "from has been destroyed or freed" % (nb, stats["methods"]),
         "modelled, not verified: LifetimeEnv construction, the DFS, validate_ty_in_env and visit_param (Lifetimes/Model.v); bounds rustc infers from an "
         "opaque's private fields and paths through 'static are outside the statement; the AST-level longer_than is modelled by the same closure "
         "function as the HIR iterator; backend emission is checked on generated code, not modelled",
